@@ -146,15 +146,34 @@ theorem cov_T (extras : Bool) (opt : List ORule) (e : OExpr) :
 
 /-! ### rule lookup in the restorer's output -/
 
+/-- the restorer's transformer of the body of the rule named `n` (a `WHITESPACE`/`COMMENT` body that
+modifies the stack is wrapped as a whole). -/
+def TR (extras : Bool) (opt : List ORule) (n : String) (e : OExpr) : OExpr :=
+  if (n = "WHITESPACE" ∨ n = "COMMENT") ∧ modifies extras opt (T extras opt e) = true
+  then .restoreOnErr (T extras opt e) else T extras opt e
+
+theorem restoreOnErr_expr (extras : Bool) (opt : List ORule) (r : ORule) :
+    (restoreOnErr extras opt r).expr = TR extras opt r.name r.expr := rfl
+
+theorem cov_TR (extras : Bool) (opt : List ORule) (n : String) (e : OExpr) :
+    CovL ((TR extras opt n e).topDown extras) (e.topDown extras) := by
+  unfold TR
+  split
+  · simp only [OExpr.topDown]
+    exact CovL.cons_inert (by intro _ h; cases h) (by intro _ h; cases h) (CovL.nil _)
+  · exact cov_T extras opt e
+
 theorem lookupO_map_restore (extras : Bool) (opt' : List ORule) (opt : List ORule) (n : String) :
-    lookupO (opt.map (restoreOnErr extras opt')) n = (lookupO opt n).map (T extras opt') := by
+    lookupO (opt.map (restoreOnErr extras opt')) n = (lookupO opt n).map (TR extras opt' n) := by
   induction opt with
   | nil => rfl
   | cons r rs ih =>
     unfold lookupO at ih ⊢
     by_cases h : r.name = n
-    · simp [restoreOnErr, h]
-    · simpa [restoreOnErr, h] using ih
+    · have h' : (restoreOnErr extras opt' r).name = n := h
+      simp only [List.map_cons, List.find?_cons, h', h, decide_true, Option.map_some, restoreOnErr_expr]
+    · have h' : ¬ (restoreOnErr extras opt' r).name = n := h
+      simpa only [List.map_cons, List.find?_cons, h', h, decide_false] using ih
 
 /-- reachability in the restorer's output implies reachability in its input. -/
 theorem mod_rs_opt (extras : Bool) (opt : List ORule) {y : OExpr}
@@ -177,7 +196,7 @@ theorem mod_rs_opt (extras : Bool) (opt : List ORule) {y : OExpr}
     | some body0 =>
       rw [hl0] at hl
       cases hl
-      exact Mod.there ((hc _ hx).2 n rfl) hl0 (ih body0 (cov_T extras opt body0))
+      exact Mod.there ((hc _ hx).2 n rfl) hl0 (ih body0 (cov_TR extras opt n body0))
 
 theorem not_dirty_of_modifies (extras : Bool) (opt : List ORule)
     (hrs : ∀ r ∈ opt.map (restoreOnErr extras opt), tagsExtras extras r.expr) (y : OExpr)
@@ -338,29 +357,83 @@ theorem goodE_T (extras : Bool) (opt : List ORule)
   | restoreOnErr e ih => simp [wf] at hwf
   | _ => simp [T, omapBottomUp, wrapBranching, GoodE]
 
+theorem tagsExtras_TR {extras : Bool} {opt : List ORule} {n : String} {e : OExpr}
+    (h : tagsExtras extras (TR extras opt n e)) : tagsExtras extras (T extras opt e) := by
+  unfold TR at h
+  split at h
+  · rcases h with h | h
+    · exact Or.inl h
+    · exact Or.inr (by simpa [noTag] using h)
+  · exact h
+
+theorem goodE_TR (extras : Bool) (opt : List ORule)
+    (hrs : ∀ r ∈ opt.map (restoreOnErr extras opt), tagsExtras extras r.expr)
+    (n : String) (e0 : OExpr) (hwf : wf extras e0 = true)
+    (ht : tagsExtras extras (TR extras opt n e0)) :
+    GoodE extras (opt.map (restoreOnErr extras opt)) (TR extras opt n e0) := by
+  have g := goodE_T extras opt hrs e0 hwf (tagsExtras_TR ht)
+  unfold TR
+  split
+  · exact g
+  · exact g
+
+/-- after the restorer the body of `WHITESPACE` / `COMMENT` cannot fail dirty: it is either wrapped in
+`restore_on_err` as a whole, or the restorer's analysis says it does not touch the stack. -/
+theorem not_dirty_wscm (extras : Bool) (opt : List ORule)
+    (hrs : ∀ r ∈ opt.map (restoreOnErr extras opt), tagsExtras extras r.expr)
+    (n : String) (hn : n = "WHITESPACE" ∨ n = "COMMENT") :
+    ¬ Dirty (opt.map (restoreOnErr extras opt)) (.ident n) := by
+  intro hd
+  generalize hx : OExpr.ident n = x at hd
+  cases hd with
+  | pop => cases hx; rcases hn with h | h <;> simp at h
+  | popAll => cases hx; rcases hn with h | h <;> simp at h
+  | @ident n' body hl hb =>
+    cases hx
+    obtain ⟨r, hr, hre⟩ := lookupO_mem hl
+    have htb : tagsExtras extras body := hre ▸ hrs r hr
+    rw [lookupO_map_restore] at hl
+    cases hl0 : lookupO opt n with
+    | none => rw [hl0] at hl; cases hl
+    | some body0 =>
+      rw [hl0] at hl
+      simp only [Option.map_some, Option.some.injEq] at hl
+      subst hl
+      unfold TR at hb htb
+      split at hb
+      · cases hb
+      · rename_i hc
+        have hm : modifies extras opt (T extras opt body0) = false := by
+          cases hmm : modifies extras opt (T extras opt body0) with
+          | false => rfl
+          | true => exact absurd ⟨hn, hmm⟩ hc
+        rw [if_neg hc] at htb
+        exact not_dirty_of_modifies extras opt hrs _ htb hm hb
+  | push _ => cases hx
+  | choiceL _ => cases hx
+  | choiceR _ => cases hx
+  | nodeTag _ => cases hx
+
 /-- The restorer establishes what the simulation needs of the optimized rules. -/
 theorem goodRules_of_optimized (extras : Bool) (rs : List ORule)
     (hopt : ∃ rules withList, optimizeWith extras withList rules = some rs)
-    (htag : ∀ r ∈ rs, tagsExtras extras r.expr)
-    (hws : modifies extras rs (.ident "WHITESPACE") = false)
-    (hcm : modifies extras rs (.ident "COMMENT") = false) : GoodRules extras rs := by
-  refine ⟨?_, ?_, ?_⟩
-  · obtain ⟨rules, withList, h⟩ := hopt
-    unfold optimizeWith at h
-    split at h
-    · cases h
-    · rename_i opt hmap
-      cases h
-      intro r hr
+    (htag : ∀ r ∈ rs, tagsExtras extras r.expr) : GoodRules extras rs := by
+  obtain ⟨rules, withList, h⟩ := hopt
+  unfold optimizeWith at h
+  split at h
+  · cases h
+  · rename_i opt hmap
+    cases h
+    refine ⟨?_, ?_, ?_⟩
+    · intro r hr
       obtain ⟨r0, hr0, rfl⟩ := List.mem_map.1 hr
       have ht := htag _ hr
       obtain ⟨a, _, ha⟩ := mapM_option_mem _ _ _ hmap r0 hr0
       simp only [Option.bind_eq_some_iff, Option.map_eq_some_iff] at ha
       obtain ⟨r1, _, e1, he1, rfl⟩ := ha
-      exact goodE_T extras opt htag e1 (toOptimized_wf extras _ e1 he1) ht
-  · intro hd
-    exact modifies_sound extras rs _ hws (dirty_mod extras rs htag hd (Or.inr rfl))
-  · intro hd
-    exact modifies_sound extras rs _ hcm (dirty_mod extras rs htag hd (Or.inr rfl))
+      rw [restoreOnErr_expr] at ht ⊢
+      exact goodE_TR extras opt htag _ e1 (toOptimized_wf extras _ e1 he1) ht
+    · exact not_dirty_wscm extras opt htag _ (Or.inl rfl)
+    · exact not_dirty_wscm extras opt htag _ (Or.inr rfl)
 
 end PestModel.VmRef
